@@ -208,6 +208,100 @@ impl Oracle {
     }
 }
 
+// ---------------------------------------------------------------------------
+// Forging prover: a malicious server that knows its key returns a WRONG output Q' and a proof built
+// for a weakened challenge (the commitment to the DLEQ relation left out). A correct verifier rejects
+// every such proof; a verifier whose challenge no longer binds the relation accepts one of them.
+// The transcript below mirrors the documented VOPRF-style layout; if the library's transcript is
+// changed legitimately these forgeries simply fail to verify (no alarm).
+
+fn i2osp2(x: usize) -> [u8; 2] {
+    (x as u16).to_be_bytes()
+}
+fn h2s(input: &[u8], label: &str) -> Scalar {
+    Scalar::from_bytes_mod_order_wide(&crate::models::ggm_ref::strobe_hash64(input, label))
+}
+fn composites(pk_tag: &RistrettoPoint, q: &RistrettoPoint, p: &RistrettoPoint) -> (RistrettoPoint, RistrettoPoint) {
+    let ctx = format!("{}-{}-{}", "PPOPRFv1", 0x03, "ristretto255-strobe");
+    let mut st = Vec::new();
+    st.extend_from_slice(&i2osp2(32));
+    st.extend_from_slice(pk_tag.compress().as_bytes());
+    st.extend_from_slice(&i2osp2(ctx.len()));
+    st.extend_from_slice(ctx.as_bytes());
+    let seed = crate::models::ggm_ref::strobe_hash64(&st, "Seed");
+    let mut ct = Vec::new();
+    ct.extend_from_slice(&i2osp2(seed.len()));
+    ct.extend_from_slice(&seed);
+    ct.extend_from_slice(&i2osp2(0));
+    ct.extend_from_slice(&i2osp2(32));
+    ct.extend_from_slice(q.compress().as_bytes());
+    ct.extend_from_slice(&i2osp2(32));
+    ct.extend_from_slice(p.compress().as_bytes());
+    let d = h2s(&ct, "Composite");
+    (d * q, d * p)
+}
+fn challenge(points: &[&RistrettoPoint]) -> Scalar {
+    let mut t = Vec::new();
+    for p in points {
+        t.extend_from_slice(&i2osp2(32));
+        t.extend_from_slice(p.compress().as_bytes());
+    }
+    h2s(&t, "Challenge")
+}
+
+impl Oracle {
+    fn forging_prover(&mut self, ctx: &mut Ctx, w: &WorldC, x: &Exchange, rec: &Rec) -> Result<(), Violation> {
+        let sv = match w.servers.iter().find(|s| s.model.key_id == x.key_id) {
+            Some(s) => s,
+            None => return Ok(()),
+        };
+        let blob = match bincode::serialize(&sv.server.get_private_key()) {
+            Ok(b) => b,
+            Err(_) => return Ok(()),
+        };
+        let st = match crate::models::ggm_ref::parse_state(&blob) {
+            Ok(s) => s,
+            Err(_) => return Ok(()),
+        };
+        let tag = match crate::models::ggm_ref::ggm_eval(&st.ggm_key, rec.md) {
+            Some(t) => t,
+            None => return Ok(()),
+        };
+        let k = st.oprf_key + Scalar::from_bytes_mod_order(tag);
+        let pk_tag = k * G;
+        let p = match CompressedRistretto::from_slice(&rec.p).ok().and_then(|c| c.decompress()) {
+            Some(p) => p,
+            None => return Ok(()),
+        };
+        let q_true = match CompressedRistretto::from_slice(&rec.q).ok().and_then(|c| c.decompress()) {
+            Some(q) => q,
+            None => return Ok(()),
+        };
+        // sanity: the re-derived key must reproduce the honest output, otherwise the attack is moot
+        if (k.invert() * p).compress().to_bytes() != rec.q {
+            ctx.stats.probe("forging_prover_key_rederivation_differs");
+            return Ok(());
+        }
+        let q_wrong = q_true + G;
+        let (m, z) = composites(&pk_tag, &q_wrong, &p);
+        let r = Scalar::from_bytes_mod_order(crate::models::ggm_ref::finalize(&rec.p, rec.md, &rec.q));
+        let t2 = r * G;
+        let t3_fake = r * m;
+        let variants: Vec<(&str, Scalar)> = vec![
+            ("challenge without t3", challenge(&[&pk_tag, &m, &z, &t2])),
+            ("challenge without z and t3", challenge(&[&pk_tag, &m, &t2])),
+            ("challenge over t2 only", challenge(&[&pk_tag, &t2])),
+            ("full transcript with t3 = r*M", challenge(&[&pk_tag, &m, &z, &t2, &t3_fake])),
+        ];
+        for (name, c) in variants {
+            let s = r - c * k;
+            self.try_one(ctx, &format!("forged:{}", name), &rec.pk_bytes, rec.md, &rec.p, &q_wrong.compress().to_bytes(), &c.to_bytes(), &s.to_bytes())?;
+            ctx.stats.probe("forged_proofs_for_wrong_output_tried");
+        }
+        Ok(())
+    }
+}
+
 impl COracle for Oracle {
     fn on_request(&mut self, ctx: &mut Ctx, w: &WorldC, client: usize, input: &[u8], md: u8, blinded: &pp::Point) -> Result<(), Violation> {
         self.inner.on_request(ctx, w, client, input, md, blinded)
@@ -240,6 +334,7 @@ impl COracle for Oracle {
         self.seen += 1;
         if !self.long || self.seen % 16 == 1 {
             self.battery(ctx, &rec)?;
+            self.forging_prover(ctx, w, x, &rec)?;
         }
         if self.commitments.len() == 129 {
             ctx.stats.probe("runs_with_more_than_128_proofs");
@@ -270,7 +365,7 @@ impl Property for C13 {
         "C (randomness service), verifiable mode, with a tampering wire"
     }
     fn rule(&self) -> &'static str {
-        "one run = a world-C history in verifiable mode (1..3 servers with own keys, several tags, clients, dup/reorder/replay so duplicated requests yield interchangeable evaluations). Completeness: every honest response verifies after crossing as JSON (evaluation) and bincode (public key). Soundness: for every honest (pk, P, Q, tag, c, s) the enumerated tamper set replaces ONE component by (a) the same-typed component of other exchanges of the history (output, input, proof, c, s, whole response = misdelivery, public key, tag, verbatim replay), (b) a neighbour (scalar +-1, point + G, one drawn bit of each encoding, other registered tag, unregistered tag, pk base + G, tag entry + G, swapped tag entries) or (c) identity / zero; verify must be false unless the resulting (statement, proof) pair was honestly issued. Nonce: the commitments s*G + c*PK_tag of all issued proofs are pairwise distinct; every 8th run (5th in thorough) is a LONG history with 150..350 (thorough: up to ~1500) proofs issued in one process so that pooled / cyclic / cached nonces show. non-trivial = >= 2 exchanges and tampered tuples rejected; states = (tamper kind, verdict) cells"
+        "one run = a world-C history in verifiable mode (1..3 servers with own keys, several tags, clients, dup/reorder/replay so duplicated requests yield interchangeable evaluations). Completeness: every honest response verifies after crossing as JSON (evaluation) and bincode (public key). Soundness: for every honest (pk, P, Q, tag, c, s) the enumerated tamper set replaces ONE component by (a) the same-typed component of other exchanges of the history (output, input, proof, c, s, whole response = misdelivery, public key, tag, verbatim replay), (b) a neighbour (scalar +-1, point + G, one drawn bit of each encoding, other registered tag, unregistered tag, pk base + G, tag entry + G, swapped tag entries) or (c) identity / zero; verify must be false unless the resulting (statement, proof) pair was honestly issued. A FORGING PROVER (the server's own key, read from its exported state) returns a wrong output with Schnorr-style proofs built for weakened challenges (t3 left out; z and t3 left out; t2 only; t3 = r*M): all must be rejected. Nonce: the commitments s*G + c*PK_tag of all issued proofs are pairwise distinct; every 8th run (5th in thorough) is a LONG history with 150..350 (thorough: up to ~1500) proofs issued in one process so that pooled / cyclic / cached nonces show. non-trivial = >= 2 exchanges and tampered tuples rejected; states = (tamper kind, verdict) cells"
     }
     fn runs(&self, thorough: bool) -> u64 {
         if thorough { 40_000 } else { 800 }
@@ -319,6 +414,6 @@ impl Property for C13 {
         vec!["soundness is decided structurally over the enumerated tamper set, not cryptographically", "a verify() that panics is counted and left to C09"]
     }
     fn key_probes(&self) -> Vec<&'static str> {
-        vec!["honest_proofs_verified", "tampered_rejected", "tampered_verifications", "commitments_distinct", "substitution_gave_an_honest_statement_accepted", "runs_with_more_than_128_proofs"]
+        vec!["honest_proofs_verified", "tampered_rejected", "tampered_verifications", "commitments_distinct", "substitution_gave_an_honest_statement_accepted", "runs_with_more_than_128_proofs", "forged_proofs_for_wrong_output_tried"]
     }
 }
